@@ -22,10 +22,14 @@ PROGRAMS = [
     ('defs', 'def f(a, b=1):\n    return a\nclass C(B): x = 1'),
     ('fstr', "s = f'{a}{b!r}'"),
     ('match', 'match a:\n    case [b, c]: pass\n    case {1: d}: pass'),
+    ('starargs', 'def f(a, b=1, *v: t, k=2, **kw: u): pass'),
+    ('lambda', 'g = lambda a, *v, **kw: a'),
+    ('compare', 'r = a < b <= c == d'),
+    ('boolop', 'r = a and b and c'),
 ]
 
 ACTIONS = ['replace_cur', 'replace_cur_big', 'remove_cur', 'replace_parent', 'remove_parent', 'replace_next',
-           'remove_next', 'replace_prev', 'remove_prev']
+           'remove_next', 'replace_prev', 'remove_prev', 'del_following']
 
 
 def donor(f, big=False):
@@ -90,6 +94,35 @@ def run_case(FST, src, on, back, k, action, send):
                 entered.append(f)
             if step == k and acted is None:
                 target = f
+                if action == 'del_following':
+                    # delete, through the slice interface of the container, everything that follows the current node
+                    par = f.parent
+                    if par is None or f.pfield is None:
+                        return None
+                    pc = par.a.__class__.__name__
+                    try:
+                        if pc == 'arguments':
+                            i = [a_ for a_ in par._cached_allargs()].index(f.a)
+                            par.put_slice(None, i + 1, 'end', '_all')
+                        elif pc == 'Compare':
+                            i = 0 if f.pfield.name == 'left' else (f.pfield.idx + 1 if f.pfield.name == 'comparators' else None)
+                            if i is None:
+                                return None
+                            par.put_slice(None, i + 1, 'end', '_all')
+                        elif f.pfield.idx is not None:
+                            if f.pfield.idx + 1 >= len(getattr(par.a, f.pfield.name)):
+                                return None
+                            par.put_slice(None, f.pfield.idx + 1, 'end', f.pfield.name)
+                        else:
+                            return None
+                    except Exception:
+                        return None
+                    acted = (action, step)
+                    acted_leaving = leaving
+                    acted_node = f
+                    acted_cur = f
+                    step += 1
+                    continue
                 if action.endswith('parent'):
                     target = f.parent
                 elif action.endswith('next'):
@@ -267,6 +300,34 @@ def main(payload):
             if r and len(failures) < 25:
                 failures.append({'key': f'C15.B.leave_send:{name}:step={k}', 'what': '; '.join(r), 'program': src,
                                  'replayed': True})
+    # walks over a caller-supplied node list (`asts=`): the list may be a live field list of the tree and is only read
+    for name, src in PROGRAMS:
+        for on, back in itertools.product(('enter', 'leave', 'both'), (False, True)):
+            root = FST(src, 'exec')
+            cands = [root.a.body] + [v for f in root.walk(True) for v in vars(f.a).values()
+                                     if isinstance(v, list) and len(v) > 1 and all(isinstance(e, ast.AST) for e in v)][:2]
+            for lst in cands:
+                before = list(lst)
+                ev += 1
+                distinct.add((name, 'asts', on, back, id(lst)))
+                what = None
+                try:
+                    got = list(root.walk(True, on, back=back, asts=lst))
+                except Exception as e:
+                    what = f'walk(asts=<live field list>) raised {e!r}'
+                else:
+                    if len(lst) != len(before) or any(a is not b for a, b in zip(lst, before)):
+                        what = (f'walk(asts=<live field list of {len(before)} nodes>, back={back}) changed the list it was '
+                                f'given ({len(lst)} nodes afterwards)')
+                    elif not got and before:
+                        what = 'walk(asts=...) yielded nothing'
+                    else:
+                        v = c01_violation(root)
+                        if v:
+                            what = f'after walk(asts=<live field list>) the tree violates C01: {v}'
+                if what and len(failures) < 25:
+                    failures.append({'key': f'C15.B.asts:{name}:on={on},back={back}', 'what': what, 'program': src,
+                                     'replayed': True})
     for on in ('enter', 'both'):
         for src in ('x = [a, b]', 'r = f(a)'):
             r = search_case(FST, src, on)
